@@ -262,9 +262,9 @@ type vfC15Pending struct {
 	changed map[int]bool
 	// open[idx]: a checksum coincidence leaves open whether the list was
 	// replaced; newNF holds the candidate.
-	open  map[int]bool
-	newNF map[int]vfC15Expect
-	raw   map[int][]byte
+	open     map[int]bool
+	newNF    map[int]vfC15Expect
+	raw      map[int][]byte
 	outcomes map[int]string
 }
 
